@@ -9,7 +9,7 @@ from vv.util import deq, getp, put, tree_leaves
 from vv.props import c06
 
 ID = 'C15'
-CASES = {'quick': 300, 'thorough': 5000}
+CASES = {'quick': 600, 'thorough': 50000}
 RULE = ('Hierarchy-first wiring specs (vv.hier: plain, "..", _path split, '
         'rename, leaf, glob, aliasing; 1..3 processes at depth 0..3, optional '
         'background declarer) with a distinct default per declared node '
